@@ -117,6 +117,21 @@ pub fn canon(q: &Query, r: &Result<QueryReply, QueryError>) -> String {
     }
 }
 
+pub fn parse_number(v: &str, d: &str) -> Option<Number> {
+    use rink_core::types::{BaseUnit, BigInt, BigRat};
+    let (n, den) = v.split_once('/')?;
+    let val = Numeric::Rational(BigRat::ratio(&BigInt::from_str_radix(n, 10).ok()?, &BigInt::from_str_radix(den, 10).ok()?));
+    let mut dims = vec![];
+    if d != "-" {
+        for part in d.split(',') {
+            let (k, p) = part.rsplit_once(':')?;
+            let k = if let Some(h) = k.strip_prefix('x') { unhex(h) } else { k.to_string() };
+            dims.push((BaseUnit::new(&k), p.parse::<i64>().ok()?));
+        }
+    }
+    Some(Number::new_dims(val, dims.into_iter().collect()))
+}
+
 pub fn unhex(s: &str) -> String {
     if s == "-" {
         return String::new();
@@ -160,7 +175,18 @@ pub fn worker() -> i32 {
                 }));
                 match res { Ok(s) => s, Err(_) => "panic".to_string() }
             }
-            ["reset"] => { ctx.previous_result = None; "ok".into() }
+            ["reset"] => { ctx.previous_result = None; ctx.save_previous_result = true; "ok".into() }
+            ["preset", v, d] => {
+                // previous_result := the given exact number (used by the fresh-context oracle of C15)
+                match parse_number(v, d) { Some(n) => { ctx.previous_result = Some(n); "ok".into() } None => "bad-op".into() }
+            }
+            ["regdigest"] => {
+                use std::hash::{Hash, Hasher};
+                let mut h = std::collections::hash_map::DefaultHasher::new();
+                format!("{:?}", ctx.registry).hash(&mut h);
+                format!("{:?}|{:?}", ctx.now, ctx.use_humanize).hash(&mut h);
+                format!("digest {:016x}", h.finish())
+            }
             ["ans", flag] => { ctx.save_previous_result = *flag == "on"; "ok".into() }
             _ => "bad-op".into(),
         };
